@@ -356,49 +356,87 @@ theorem advance_rekey_exact (P : Prims) (hP : WF P) (s : State) (hs : StateWF s)
   rw [hin] at b
   exact ⟨a, b, c⟩
 
-/-! ### the `MESSAGEBYTES_MAX` guards -/
+/-! ### the length guards (`KEYSTREAM_MESSAGEBYTES_MAX` since fix E16; `MESSAGEBYTES_MAX` before) -/
 
 theorem MESSAGEBYTES_MAX_eq : MESSAGEBYTES_MAX = 274877906816 := by decide
 
+/-- `MESSAGEBYTES_MAX − 64 = 64·(2^32 − 3)` -/
+theorem KEYSTREAM_MESSAGEBYTES_MAX_val : KEYSTREAM_MESSAGEBYTES_MAX = 274877906752 := by decide
+
 theorem pushChecked_eq_push (P : Prims) (s : State) (ctLen : Nat) (m ad : Bytes) (tag : UInt8)
-    (h : m.length ≤ MESSAGEBYTES_MAX) : pushChecked P s ctLen m ad tag = push P s ctLen m ad tag := by
+    (h : m.length ≤ KEYSTREAM_MESSAGEBYTES_MAX) : pushChecked P s ctLen m ad tag = push P s ctLen m ad tag := by
   unfold pushChecked
   split
   · rename_i h1; unfold push; rw [if_pos h1]
   · rw [if_neg (by omega)]
 
 theorem pushChecked_too_long (P : Prims) (s : State) (ctLen : Nat) (m ad : Bytes) (tag : UInt8)
-    (h : MESSAGEBYTES_MAX < m.length) : pushChecked P s ctLen m ad tag = .err := by
+    (h : KEYSTREAM_MESSAGEBYTES_MAX < m.length) : pushChecked P s ctLen m ad tag = .err := by
   unfold pushChecked
   split
   · rfl
   · first | rfl | rw [if_pos h]
 
 theorem pullChecked_eq_pull (P : Prims) (s : State) (buf : Bytes) (tagv : UInt8) (ct ad : Bytes)
-    (h : ct.length ≤ MESSAGEBYTES_MAX) : pullChecked P s buf tagv ct ad = pull P s buf tagv ct ad := by
+    (h : ct.length ≤ KEYSTREAM_MESSAGEBYTES_MAX + 17) :
+    pullChecked P s buf tagv ct ad = pull P s buf tagv ct ad := by
   unfold pullChecked
+  split
+  · rename_i h1; unfold pull; rw [if_pos h1]
+  · split
+    · rename_i h1 h2; unfold pull; rw [if_neg h1]; simp only; rw [if_pos h2]
+    · rw [if_neg (by unfold ABYTES; omega)]
+
+theorem pullChecked_too_long (P : Prims) (s : State) (buf : Bytes) (tagv : UInt8) (ct ad : Bytes)
+    (h : KEYSTREAM_MESSAGEBYTES_MAX + 17 < ct.length) : pullChecked P s buf tagv ct ad = ⟨.err, buf, tagv, s⟩ := by
+  unfold pullChecked
+  split
+  · rfl
+  · split
+    · rfl
+    · first | rfl | rw [if_pos (by unfold ABYTES; omega)]
+
+/-- `pullChecked` is `pull` or a plain rejection -/
+theorem pullChecked_cases (P : Prims) (s : State) (buf : Bytes) (tagv : UInt8) (ct ad : Bytes) :
+    pullChecked P s buf tagv ct ad = pull P s buf tagv ct ad ∨
+      pullChecked P s buf tagv ct ad = ⟨.err, buf, tagv, s⟩ := by
+  by_cases h : ct.length ≤ KEYSTREAM_MESSAGEBYTES_MAX + 17
+  · exact Or.inl (pullChecked_eq_pull P s buf tagv ct ad h)
+  · exact Or.inr (pullChecked_too_long P s buf tagv ct ad (by omega))
+
+/-! #### the guards before fix E16 (counter-models) -/
+
+theorem pushCheckedOld16_eq_push (P : Prims) (s : State) (ctLen : Nat) (m ad : Bytes) (tag : UInt8)
+    (h : m.length ≤ MESSAGEBYTES_MAX) : pushCheckedOld16 P s ctLen m ad tag = push P s ctLen m ad tag := by
+  unfold pushCheckedOld16
+  split
+  · rename_i h1; unfold push; rw [if_pos h1]
+  · rw [if_neg (by omega)]
+
+theorem pushCheckedOld16_too_long (P : Prims) (s : State) (ctLen : Nat) (m ad : Bytes) (tag : UInt8)
+    (h : MESSAGEBYTES_MAX < m.length) : pushCheckedOld16 P s ctLen m ad tag = .err := by
+  unfold pushCheckedOld16
+  split
+  · rfl
+  · first | rfl | rw [if_pos h]
+
+theorem pullCheckedOld16_eq_pull (P : Prims) (s : State) (buf : Bytes) (tagv : UInt8) (ct ad : Bytes)
+    (h : ct.length ≤ MESSAGEBYTES_MAX) : pullCheckedOld16 P s buf tagv ct ad = pull P s buf tagv ct ad := by
+  unfold pullCheckedOld16
   split
   · rename_i h1; unfold pull; rw [if_pos h1]
   · split
     · rename_i h1 h2; unfold pull; rw [if_neg h1]; simp only; rw [if_pos h2]
     · rw [if_neg (by omega)]
 
-theorem pullChecked_too_long (P : Prims) (s : State) (buf : Bytes) (tagv : UInt8) (ct ad : Bytes)
-    (h : MESSAGEBYTES_MAX < ct.length) : pullChecked P s buf tagv ct ad = ⟨.err, buf, tagv, s⟩ := by
-  unfold pullChecked
+theorem pullCheckedOld16_too_long (P : Prims) (s : State) (buf : Bytes) (tagv : UInt8) (ct ad : Bytes)
+    (h : MESSAGEBYTES_MAX < ct.length) : pullCheckedOld16 P s buf tagv ct ad = ⟨.err, buf, tagv, s⟩ := by
+  unfold pullCheckedOld16
   split
   · rfl
   · split
     · rfl
     · first | rfl | rw [if_pos h]
-
-/-- `pullChecked` is `pull` or a plain rejection -/
-theorem pullChecked_cases (P : Prims) (s : State) (buf : Bytes) (tagv : UInt8) (ct ad : Bytes) :
-    pullChecked P s buf tagv ct ad = pull P s buf tagv ct ad ∨
-      pullChecked P s buf tagv ct ad = ⟨.err, buf, tagv, s⟩ := by
-  by_cases h : ct.length ≤ MESSAGEBYTES_MAX
-  · exact Or.inl (pullChecked_eq_pull P s buf tagv ct ad h)
-  · exact Or.inr (pullChecked_too_long P s buf tagv ct ad (by omega))
 
 /-! ### object layer: the state is threaded as the Rust does -/
 
